@@ -56,7 +56,7 @@ func vclTokens(src string) []string {
 		switch {
 		case c == ' ' || c == '\n' || c == '\t' || c == '\r':
 			i++
-		case c == '#': // macro/annotation comment line produced by the harness: keep as one token incl. newline
+		case c == '#' || strings.HasPrefix(src[i:], "// @"): // macro/annotation comment line produced by the harness: keep as one token incl. newline
 			j := strings.IndexByte(src[i:], '\n')
 			if j < 0 {
 				j = len(src) - i
@@ -121,18 +121,33 @@ func decorate(t *rapid.T, toks []string) (string, int, []string) {
 		if i > 0 {
 			prev := toks[i-1]
 			ws := rapid.SampledFrom([]string{" ", " ", "\n", "  ", "\t", "\n\n", "\n    "}).Draw(t, "ws")
-			glued := strings.HasPrefix(prev, "#") // after a macro line we are already on a fresh line
+			glued := strings.HasPrefix(prev, "#") || strings.HasPrefix(prev, "// @") // after a macro/annotation line we are already on a fresh line
 			if glued {
 				ws = ""
+			}
+			if strings.Contains(tok, "@scope") && !strings.Contains(ws, "\n") {
+				// an annotation stays on a line of its own: on the line of the previous token it
+				// would be that token's trailing comment and annotate nothing
+				ws = "\n"
 			}
 			b.WriteString(ws)
 			if density > 0 && rapid.IntRange(0, 99).Draw(t, "c") < density {
 				body := fmt.Sprintf("c%d %s", n, rapid.SampledFrom(c09Words).Draw(t, "w"))
-				switch rapid.IntRange(0, 2).Draw(t, "cform") {
+				switch rapid.IntRange(0, 7).Draw(t, "cform") {
 				case 0:
 					b.WriteString("# " + body + "\n")
 				case 1:
 					b.WriteString("// " + body + "\n")
+				case 3: // closed by an even run of stars
+					b.WriteString("/** " + body + " **/ ")
+				case 4:
+					b.WriteString("/*** " + body + " * / ***/ ")
+				case 5: // empty block comment
+					b.WriteString("/**/ ")
+				case 6:
+					b.WriteString("## " + body + " ##\n")
+				case 7:
+					b.WriteString("/* " + body + "\n   * more\n   */ ")
 				default:
 					b.WriteString("/* " + body + " */ ")
 				}
@@ -213,13 +228,33 @@ func genC09(t *rapid.T) any {
 			for _, a := range c.Acls {
 				b.WriteString(a.Render())
 			}
-			b.WriteString("sub vcl_recv {\n#FASTLY recv\n" + strings.Join(out, "") + "}\n")
+			// user subroutines: scope from an annotation, scope inferred from the caller, never called
+			b.WriteString("# @scope: recv\nsub c09_annotated {\n  set req.http.X-H = req.http.Host;\n")
+			if rapid.Bool().Draw(t, "helper-injection") {
+				b.WriteString("  " + rapid.SampledFrom(lintInjections).Draw(t, "hinjection"))
+			}
+			b.WriteString("}\nsub c09_inferred {\n  set req.http.X-H2 = client.ip;\n}\n")
+			b.WriteString("// @scope: deliver\nsub c09_deliver_only {\n  set resp.http.X-D = \"1\";\n}\n")
+			b.WriteString("sub c09_fn(STRING var.s) STRING {\n  return var.s \"!\";\n}\n")
+			calls := ""
+			if rapid.Bool().Draw(t, "calls") {
+				calls = "  call c09_annotated;\n  call c09_inferred;\n  set req.http.X-F = c09_fn(\"a\");\n"
+			}
+			b.WriteString("sub vcl_recv {\n#FASTLY recv\n" + calls + strings.Join(out, "") + "}\n")
 			c.Plain = b.String()
 		}
 	case "lifecycle":
 		pc := genC06(t).(C06Case)
 		c.URLs = pc.URLs
 		c.Plain = c06VCLNoBackend(pc)
+		// calls of user subroutines (plain, with arguments, functional) on the executed path
+		if rapid.IntRange(0, 3).Draw(t, "calls") > 0 {
+			c.Plain = strings.Replace(c.Plain, "sub vcl_recv {\n", "sub vcl_recv {\n  call c09_mark;\n  call c09_arg(\"a\", 1);\n  set req.http.X-F = c09_fn(\"a\");\n", 1)
+			c.Plain = strings.Replace(c.Plain, "sub vcl_deliver {\n", "sub vcl_deliver {\n  call c09_mark;\n  log c09_fn(req.http.X-F);\n", 1)
+			c.Plain += "# @scope: recv, deliver\nsub c09_mark {\n  log \"mark \" req.restarts;\n}\n" +
+				"sub c09_arg(STRING var.s, INTEGER var.n) {\n  log \"arg \" var.s var.n;\n}\n" +
+				"sub c09_fn(STRING var.s) STRING {\n  return var.s \"!\";\n}\n"
+		}
 	}
 	c.Decorated, c.NComments, c.Slots = decorate(t, vclTokens(c.Plain))
 	return c
